@@ -132,6 +132,20 @@ class _Subst(ast.NodeTransformer):
         return node
 
 
+def _assign(targets, value):
+    """`a, b = (x, y)` as two assignments when no target is read on the right-hand side (the
+    rules bind single names more readily than tuple patterns)"""
+    if len(targets) == 1 and isinstance(targets[0], ast.Tuple) and \
+            isinstance(value, ast.Tuple) and len(targets[0].elts) == len(value.elts) and \
+            all(isinstance(t, ast.Name) for t in targets[0].elts):
+        names = {t.id for t in targets[0].elts}
+        used = {n.id for n in ast.walk(value) if isinstance(n, ast.Name)}
+        if not (names & used):
+            return [ast.Assign(targets=[copy.deepcopy(t)], value=v)
+                    for t, v in zip(targets[0].elts, value.elts)]
+    return [ast.Assign(targets=copy.deepcopy(targets), value=value)]
+
+
 class _Inliner:
     def __init__(self, tree):
         self.tree = tree
@@ -232,6 +246,7 @@ class _Inliner:
         body = h.body
         rets = h.returns()
         guard = None
+        multi = False
         if kind == 'proc':
             # allowed: no return at all; a trailing bare `return`; one leading `if c: return`
             if body and isinstance(body[0], ast.If) and not body[0].orelse and \
@@ -257,10 +272,11 @@ class _Inliner:
                 final, body = body[-1].value, body[:-1]
             else:
                 # early returns at the top level: `if c: ...; return a` / `...; return b`
-                # becomes `if c: ...; x = a` / `else: ...; x = b`
-                body = self._returns_to_assign(body, st.targets)
-                if body is None:
+                # becomes `if c: ...; x = a` / `else: ...; x = b` (after the helper's locals
+                # have been renamed apart - the caller's targets are not the helper's names)
+                if self._returns_to_assign(body, st.targets) is None:
                     return None
+                multi = True
                 final = None
         self.counter += 1
         tag = '__%s%d' % (h.fn.name.strip('_'), self.counter)
@@ -283,6 +299,8 @@ class _Inliner:
                 rename[p] = p + tag
         sub = _Subst({k: v for k, v in mapping.items() if k not in rename}, rename)
         new_body = [sub.visit(copy.deepcopy(s_)) for s_ in body]
+        if multi:
+            new_body = self._returns_to_assign(new_body, st.targets)
         out = list(pre)
         if guard is not None:
             g = sub.visit(copy.deepcopy(guard))
@@ -293,7 +311,7 @@ class _Inliner:
         if final is not None:
             fe = sub.visit(copy.deepcopy(final))
             if kind == 'assign':
-                out.append(ast.Assign(targets=st.targets, value=fe))
+                out.extend(_assign(st.targets, fe))
             else:
                 out.append(ast.Return(value=fe))
         for n in out:
@@ -313,7 +331,7 @@ class _Inliner:
                 if isinstance(s_, ast.Return):
                     if not last or s_.value is None:
                         return None
-                    out.append(ast.Assign(targets=copy.deepcopy(targets), value=s_.value))
+                    out.extend(_assign(targets, s_.value))
                     return out
                 if isinstance(s_, ast.If) and any(isinstance(n, ast.Return)
                                                   for n in ast.walk(s_)):
